@@ -49,12 +49,20 @@ STUB_PATCHES = {
 }
 
 
-def _run(cmd, cwd, env, timeout, logfile):
+def _run(cmd, cwd, env, timeout, logfile, mem_gb=None):
+    """run one command (own process group, killed as a group on timeout); mem_gb: address-space cap per process"""
+    import signal
+    pre = f"ulimit -v {int(mem_gb * 1024 * 1024)}; " if mem_gb else ""
     with open(logfile, "w") as lf:
+        p = subprocess.Popen(["bash", "-c", pre + cmd], cwd=cwd, env=env, stdout=lf, stderr=subprocess.STDOUT, start_new_session=True)
         try:
-            p = subprocess.run(["bash", "-c", cmd], cwd=cwd, env=env, stdout=lf, stderr=subprocess.STDOUT, timeout=timeout)
-            return p.returncode
+            return p.wait(timeout=timeout)
         except subprocess.TimeoutExpired:
+            try:
+                os.killpg(p.pid, signal.SIGKILL)
+            except ProcessLookupError:
+                pass
+            p.wait()
             return -9
 
 
@@ -127,7 +135,8 @@ def _kani_playback(prop, h, fcs, src, target, logs, env, hfile):
     def gen(extra_env):
         e = dict(env)
         e.update(extra_env)
-        _run(cmd, src, e, int(os.environ.get('VERIF_PLAYBACK_TIMEOUT', '1500')), log1)
+        # Kani's playback parses CBMC's full JSON trace inside the driver: cap it (seen: 39 GB for a list-heavy harness)
+        _run(cmd, src, e, int(os.environ.get('VERIF_PLAYBACK_TIMEOUT', '1500')), log1, mem_gb=float(os.environ.get('VERIF_PLAYBACK_MEM_GB', '12')))
         txt = open(log1, errors="replace").read()
         found = []
         for blk in re.findall(r"```\s*\n(.*?)\n```", txt, re.S):
